@@ -30,8 +30,8 @@ ASSUMPTIONS = [
     "reads are sorted by position without duplicate positions and cover >= 2 variants (readselection raises ValueError "
     "otherwise; phase.py filters len(read) >= 2 and merge_readsets asserts is_sorted)",
     "family_total: number of family members <= k (for larger families phase.py gives every member cap 1, total = |family|)",
-    "maximality is proved for calls without preferred reads and for the repaired rule; for the current code with preferred "
-    "reads it is refuted (C07_maximal_current_refuted)",
+    "maximality is proved for the code as repaired by fix d6f31a2 (rule PrefRepaired; also for the pre-fix rule when no read "
+    "is preferred); for the pre-fix rule with preferred reads it is refuted (C07_maximal_current_refuted)",
 ]
 
 HEADER = """From Coq Require Import ZArith List Bool Arith.
@@ -353,7 +353,7 @@ def run(ctx):
         ctx.extra["cases_matching_pre_fix_rule_only"] = len(set(bad) - set(failing["old"]))
         ctx.disagreements_checked += len(bad)
         ctx.l2_disagreement("ReadSelect.replay_ok PrefRepaired (decision trace and result of readselection = model)",
-                            [replay_of(recs[i]) for i in bad[:20]])
+                            [replay_of(recs[i]) for i in bad])
         if not failing["L1cap"] and not failing["L1max"]:
             # search: shrink the disagreeing cases w.r.t. the python oracle, then a wider seeded search
             cand = []
@@ -364,7 +364,7 @@ def run(ctx):
             for reads, k, pref, bridging in gen_random(rng, ctx.n(4000, 40000)):
                 res = py_spec(reads, k, run_impl(reads, k, pref, bridging)[0])
                 ctx.count(("direct", repr(reads), k, repr(pref), bridging))
-                if res and not (res == "maximal" and pref):
+                if res:
                     cand.append(shrink_case((reads, k, pref, bridging),
                                             lambda rs, k, p, b: py_spec(rs, k, run_impl(rs, k, p, b)[0]) is not None))
                     if len(cand) >= 3:
